@@ -20,6 +20,7 @@ type SpecEnv struct {
 	entryAlloc string
 	inOld      bool
 	depth      int
+	curLoop    *loopInfo
 }
 
 func (x *Exec) newEnv(st, old *State, fr *Frame) *SpecEnv {
@@ -70,6 +71,11 @@ func (e *SpecEnv) evalBool(ex Expr) string {
 // evalRef evaluates a modifies expression to an object reference (pointer, map, or the backing
 // array of a slice).
 func (e *SpecEnv) evalRef(ex Expr) string {
+	if ea, ok := ex.(*EachE); ok {
+		ch := e.child()
+		ch.vars[ea.Var] = Term{"%R%", intT}
+		return "@PRED@" + ch.evalBool(ea.Body)
+	}
 	if ix, ok := ex.(*IndexE); ok {
 		if id, ok := ix.I.(*Ident); ok && id.Name == "_" {
 			ex = ix.X
@@ -593,10 +599,19 @@ func (e *SpecEnv) call(n *CallE) Val {
 			return Term{s, boolT}
 		}
 		return Term{e.eqNil(v, Term{"0", nil}), boolT}
-	case "seen": // seen(k): key already visited by the (single) active map range loop
-		for _, v := range e.fr.regs {
-			if it, ok := v.(*RangeIter); ok && it.Seen != nil {
-				return Term{app("select", e.st.cells[it.Seen].(Term).S, argT(0).S), boolT}
+	case "seen": // seen(k): key already visited by the map range of the loop this clause belongs to
+		if e.curLoop == nil || e.fr == nil {
+			bail("spec: seen() is only meaningful in the invariant of a map range loop")
+		}
+		for b := range e.curLoop.body {
+			for _, in := range b.Instrs {
+				if nx, ok := in.(*ssa.Next); ok {
+					if it, ok := e.fr.regs[nx.Iter].(*RangeIter); ok && it.Seen != nil {
+						if ri, ok := nx.Iter.(*ssa.Range); ok && !e.curLoop.body[ri.Block()] {
+							return Term{app("select", e.st.cells[it.Seen].(Term).S, argT(0).S), boolT}
+						}
+					}
+				}
 			}
 		}
 		bail("spec: seen() without an active map range")
